@@ -62,6 +62,55 @@ def sites(mir):
     return out
 
 
+def sign_obligation(mir):
+    """Number::sign on the integer / rational arms: 0 for zero, 1 for a positive, -1 for a negative
+    value, with is_positive / is_zero / is_negative of the value as Boolean inputs. dashu gives a zero
+    bignum the positive sign, so is_positive does NOT exclude is_zero: the only constraints are
+    zero => not negative, not (positive and negative), not zero => positive or negative.
+    -> (query, note)"""
+    ns = [n for n in mir.index if re.search(r"^forms::<impl at [^>]*>::sign$", n)]
+    body = None
+    for n in ns:
+        b = mir.body(n)
+        if "Number" in b.header.split("\n")[0]:
+            body = b
+    if body is None:
+        raise core.Unsupported("Number::sign not found")
+    paths = core.Executor(body, max_depth=200, max_paths=200).run("bb0")
+    cubes = []
+    for p in paths:
+        if p.end != "return":
+            continue
+        lits = {}
+        for c in p.conds:
+            t = c[0]
+            if t[0] == "app" and re.search(r"::(is_positive|is_zero|is_negative)$", t[1]):
+                nm = t[1].split("::")[-1]
+                lits[nm] = (c[2] != 0) if c[1] == "==" else (0 in c[2])
+        if not lits:
+            continue            # the float arms
+        r = p.env.get("_0")
+        val = None
+        if r is not None and r[0] == "agg" and r[2] and r[2][0][0] == "app" and r[2][0][1].endswith("build_with"):
+            a = r[2][0][2][0]
+            if a[0] == "c":
+                val = a[1] if a[1] < 2**63 else a[1] - 2**64
+        if val is None:
+            raise core.Unsupported("Number::sign: result of an integer path not understood")
+        cube = "(and true %s)" % " ".join(k if v else "(not %s)" % k for k, v in sorted(lits.items()))
+        cubes.append((cube, val))
+    if not cubes:
+        raise core.Unsupported("Number::sign: no integer path")
+    res = "0"
+    for cube, val in cubes:
+        res = "(ite %s %d %s)" % (cube, val, res) if val >= 0 else "(ite %s (- %d) %s)" % (cube, -val, res)
+    q = ("(declare-const is_positive Bool)\n(declare-const is_zero Bool)\n(declare-const is_negative Bool)\n"
+         "(assert (and (=> is_zero (not is_negative)) (not (and is_positive is_negative)) "
+         "(=> (not is_zero) (or is_positive is_negative))))\n"
+         "(assert (not (= %s (ite is_zero 0 (ite is_negative (- 1) 1)))))" % res)
+    return q, "%d integer paths" % len(cubes)
+
+
 def run(thorough=False):
     try:
         mir, secs, cached = util.get()
@@ -87,6 +136,14 @@ def run(thorough=False):
         queries.append(q)
         meta.append({"fn": n.split("::")[-1], "module": n.split("::")[0], "block": bb, "arms": arms,
                      "exempt_unreachable_default": exempt})
+    try:
+        sq, snote = sign_obligation(mir)
+        queries.append(sq)
+        meta.append({"fn": "sign", "module": "forms", "block": snote, "arms": {}, "exempt_unreachable_default": False,
+                     "sign": True})
+    except core.Unsupported as e:
+        log("  mirsmt C05 sites: Number::sign: %s" % e)
+        return {"exit": EXIT_INCONCLUSIVE, "mirsmt_error": str(e)}
     br = smt.check_batch(queries, thorough=thorough)
     res = {"evaluations": len(queries), "distinct_nontrivial": 0, "samples": [],
            "mirsmt_regions": ["every switch on a Number discriminant outside %s (%d sites)" % (
@@ -101,10 +158,14 @@ def run(thorough=False):
             res["distinct_nontrivial"] += 1
         else:
             viol.append(m)
-        if len(res["samples"]) < 8 or r["answer"] != "unsat":
+        if m.get("sign"):
+            res["samples"].append({"query": "Number::sign: 0 for zero, 1 / -1 by sign, for integers and rationals in "
+                                   "every representation (is_positive does not exclude zero)", "answer": r["answer"],
+                                   "note": m["block"]})
+        elif len(res["samples"]) < 8 or r["answer"] != "unsat":
             res["samples"].append({"query": "%s::%s %s: Integer handled explicitly <=> Fixnum handled explicitly" % (
                 m["module"], m["fn"], m["block"]), "answer": r["answer"], "arms": m["arms"]})
-    log("  mirsmt C05 sites: %d switches on a Number's representation outside the kernels, %d treat "
+    log("  mirsmt C05 sites: %d obligations (switches on a Number's representation outside the kernels + Number::sign), %d hold: they treat "
         "Integer and Fixnum alike, %d do not (z3 %.2fs)" % (len(queries), res["distinct_nontrivial"],
                                                             len(viol), br["z3_s"]))
     res["exit"] = EXIT_OK
